@@ -273,7 +273,50 @@ func Gen(c *core.Chooser, p *PDU, o GenOpt) *Msg {
 	if o.Shape == 0 && c.Prob(1, 8) {
 		coincide(c, m)
 	}
+	if o.Shape == 0 && !o.BodyNoNul && c.Prob(1, 10) {
+		reportBody(c, m)
+	}
 	return m
+}
+
+// reportBody turns a deliver into a status report: the report flag is set and the body becomes a binary report of the
+// CMPP kind (8-octet id, text slots of 7, 10, 10 and 21 or 32 octets, 4-octet sequence: 60 or 71 octets) whose text
+// slots are padded canonically or carry junk after the NUL, or a receipt text. A codec that looks INTO such a body
+// (and lays it out again) has something to look at.
+func reportBody(c *core.Chooser, m *Msg) {
+	var flag *Val
+	var body *Field
+	for _, f := range m.PDU.Fields {
+		switch {
+		case f.Kind == KU8 && (strings.EqualFold(f.Name, "Registered_Delivery") || f.Name == "IsReport"):
+			flag = m.F[f.Name]
+		case f.Kind == KOctets && m.PDU.Field(f.Ref) != nil && m.PDU.Field(f.Ref).IntBits() == 8:
+			body = f
+		}
+	}
+	if flag == nil || body == nil {
+		return
+	}
+	flag.U = 1
+	var b []byte
+	if c.Prob(1, 4) {
+		b = []byte("id:0123456789 sub:001 dlvrd:001 submit date:2401011200 done date:2401011201 stat:DELIVRD err:000 text:abc")
+	} else {
+		dest := []int{21, 32}[c.Intn(2)]
+		b = c.Blob(8, "any")
+		for _, w := range []int{7, 10, 10, dest} {
+			slot := make([]byte, w)
+			k := c.Intn(w + 1)
+			copy(slot, c.Blob(k, "digits"))
+			if k+1 < w && c.Bool() {
+				copy(slot[k+1:], c.Blob(w-k-1, "any")) // junk after the NUL: accepted, not canonical
+			}
+			b = append(b, slot...)
+		}
+		b = append(b, c.Blob(4, "any")...)
+	}
+	m.F[body.Name].B = b
+	m.V(body.Ref).U = uint64(len(b))
 }
 
 // coincide makes one octet of a text field equal to something it has no business to equal: a length or count of the
